@@ -699,3 +699,22 @@ package fosite
 //@ func NewDefaultJWKSFetcherStrategy
 //@   trusted
 //@   ensures result != nil && fresh(result)
+
+// ---------------------------------------------------------------- C20: what a sanitized request carries
+//@ func (*Request).GetID
+//@   modifies a.ID
+//@   ensures [C20.request-id-stable] old(a.ID) != "" ==> result == old(a.ID) && a.ID == old(a.ID)
+//@   ensures [C20.request-id-stable] result == a.ID
+
+// The sanitized copy keeps exactly those form keys that are white-listed by the caller or are one of the four
+// defaults, with the receiver's values; everything else (credentials included) is dropped.
+//@ func (*Request).Sanitize
+//@   let rb = cast(result, *Request)
+//@   requires a != nil && a.Form != nil
+//@   modifies a.ID
+//@   ensures [C20.sanitize-whitelist] typeis(result, *Request) && fresh(result)
+//@   ensures [C20.sanitize-whitelist] forall k string :: k in rb.Form ==> (insl(allowedParameters, k) || k == "grant_type" || k == "response_type" || k == "scope" || k == "client_id")
+//@   ensures [C20.sanitize-whitelist] forall k string :: k in rb.Form ==> k in a.Form && rb.Form[k] == a.Form[k]
+//@   ensures [C20.sanitize-keeps-grant] rb.Client == a.Client && rb.Session == a.Session && rb.GrantedScope == a.GrantedScope && rb.GrantedAudience == a.GrantedAudience && rb.RequestedScope == a.RequestedScope && rb.RequestedAudience == a.RequestedAudience && rb.RequestedAt == a.RequestedAt && rb.ID == a.ID
+//@   invariant loop#1 [C20.sanitize-whitelist] forall k string :: (k in allowed && allowed[k]) ==> (insl(allowedParameters, k) || k == "grant_type" || k == "response_type" || k == "scope" || k == "client_id")
+//@   invariant loop#2 [C20.sanitize-whitelist] b != a && b.Form != a.Form && a.Form == pre(a.Form) && (forall k string :: (k in allowed && allowed[k]) ==> (insl(allowedParameters, k) || k == "grant_type" || k == "response_type" || k == "scope" || k == "client_id")) && (forall k string :: k in b.Form ==> (k in allowed && allowed[k]) && k in a.Form && b.Form[k] == a.Form[k])
